@@ -12,7 +12,7 @@
    the full statement as a Definition (C10_resolve_full), its refutation (C10_resolve_full_refuted) and
    the theorem with the exact extra hypothesis `~ stale p st` (C10_resolve_partial). *)
 From Coq Require Import ZArith NArith List Bool Permutation.
-Require Import DS.Model.HintPrim DS.Gen.GenHint DS.Model.Hint DS.Model.HintStore.
+Require Import DS.Model.HintPrim DS.Gen.GenHint DS.Gen.GenHintPins DS.Model.Hint DS.Model.HintStore.
 Require Import DS.Proofs.HintProofs DS.Proofs.HintStoreProofs.
 Import ListNotations.
 Open Scope N_scope.
@@ -107,6 +107,16 @@ Theorem C10_unremoved_orphan_surfaces :
     exists f, In f (files st) /\ fcom f = false /\ resolve None (listing st) = RRet (Some (fver f, fname f)).
 Proof. exact unremoved_orphan_surfaces. Qed.
 Print Assumptions C10_unremoved_orphan_surfaces.
+
+(* Recovery orders versions as numbers: from any directory of rendered metadata files (any versions, with any
+   number of decimal digits -- 9 and 10, 99 and 100, ...), whatever _recover_version_from_files returns is a listed
+   file whose version is numerically >= every listed version.  (Proofs/HintStoreProofs.v recover_nine_ten: the
+   concrete 9-versus-10 instance, in both listing orders, with the mtimes favouring 9.) *)
+Theorem C10_recover_highest : forall (fs : list mfile) (v : N) (name : list cp),
+  Forall wf_file fs -> recover (map entry_of fs) = RRet (Some (v, name)) ->
+  exists r, In r fs /\ v = fver r /\ name = fname r /\ forall f, In f fs -> fver f <= fver r.
+Proof. exact recover_highest. Qed.
+Print Assumptions C10_recover_highest.
 
 (* Same-version leftovers (what an AMBIGUOUS failed commit keeps on purpose): with the pointer lost or
    unparseable, recovery still picks the published file L as long as every other file has a lower version or
